@@ -311,7 +311,7 @@ def run(ctx: lib.Ctx) -> None:
         hist.append((d['node_counter'], d['pending'], [tuple(c) for c in d['history']]))
         ctx.corpus_cases += 1
     hist += FIXED
-    n_total = ctx.n(800, 30000)
+    n_total = ctx.n(1200, 30000)
     while len(hist) < n_total:
         nc0 = rng.choice([0, 1, 5, 10, 125, 126, 127, 128, 16382, 16383, 10 ** 6, 2 ** 63 - 2])
         if rng.random() < 0.45:
